@@ -211,4 +211,51 @@ theorem strByte_last (s : Str) (h : s ≠ []) :
       rw [beq_eq_false_iff_ne.mpr h46]
       symm; simpa using hc
 
+
+/-! ### first byte against an ASCII code, tail after an ASCII first character -/
+
+theorem encodeChar_head_ascii (c : Char) (n : Nat) (hn : n < 128) :
+    (Utf8.encodeChar c).head? = some n ↔ c.toNat = n := by
+  rcases encodeChar_cases c with ⟨h0, h⟩ | ⟨h0, b, bs, h, hb, _, _⟩
+  · rw [h]; simp
+  · rw [h]; simp
+    constructor
+    · intro e; omega
+    · intro e; omega
+
+theorem strByte_first_ascii (c : Char) (cs : Str) (n : Nat) (hn : n < 128) :
+    ∃ b, strByte (c :: cs) 0 = some b ∧ ((b == (n : Int)) = decide (c.toNat = n)) := by
+  have hh : (Utf8.encode (c :: cs)).head? = (Utf8.encodeChar c).head? := by
+    rcases encodeChar_cases c with ⟨_, e⟩ | ⟨_, b, bs, e, _⟩ <;> simp [Utf8.encode, e]
+  have := encodeChar_head_ascii c n hn
+  cases hb : (Utf8.encodeChar c).head? with
+  | none => rcases encodeChar_cases c with ⟨_, e⟩ | ⟨_, b, bs, e, _⟩ <;> simp [e] at hb
+  | some b =>
+    refine ⟨(b : Int), by simp [strByte, idx_zero, hh, hb], ?_⟩
+    rw [hb] at this
+    by_cases hc : c.toNat = n
+    · have : b = n := by simpa using this.mpr hc
+      subst this; simp [hc]
+    · have hne : ¬ b = n := fun e => hc (this.mp (by rw [e]))
+      have h2 : ¬ ((b : Int) = (n : Int)) := by omega
+      rw [beq_eq_false_iff_ne.mpr h2]
+      simp [hc]
+
+/-- `s[1:]` of a string whose first character is ASCII: the rest of the string -/
+theorem strSliceFrom_one (c : Char) (cs : Str) (hc : c.toNat < 128) : strSliceFrom (c :: cs) 1 = some cs := by
+  have he : Utf8.encode (c :: cs) = c.toNat :: Utf8.encode cs := by
+    rcases encodeChar_cases c with ⟨_, e⟩ | ⟨h0, _⟩
+    · simp [Utf8.encode, e]
+    · omega
+  have hlen : strLen (c :: cs) = ((Utf8.encode cs).length : Int) + 1 := by
+    simp [strLen, utf8Len_eq, he]
+  unfold strSliceFrom strSlice slice
+  rw [hlen, he]
+  have h1 : (0 : Int) ≤ 1 ∧ (1 : Int) ≤ ((Utf8.encode cs).length : Int) + 1 ∧
+      ((Utf8.encode cs).length : Int) + 1 ≤ len (c.toNat :: Utf8.encode cs) := by
+    simp [len]; omega
+  rw [if_pos h1]
+  have h2 : (((Utf8.encode cs).length : Int) + 1).toNat = (Utf8.encode cs).length + 1 := by omega
+  simp [h2, Utf8.decode_encode]
+
 end Jwt.GoRt
